@@ -23,4 +23,5 @@ def run(ctx):
     immut.im8(ctx)
     immut.im9(ctx)
     immut.im11(ctx)
+    immut.im13(ctx)     # nobody writes into the cache of a URL it did not create (shared, memoised objects)
     immut.im12(ctx)
